@@ -1,9 +1,16 @@
 (** C15: the SQL prefix filter is a literal comparison. *)
 From Coq Require Import List NArith String Bool.
 From W.gen Require Import Extracted TieLib.
+From W.model Require Import RefStore RefSql.
 Import ListNotations.
 Open Scope string_scope.
-Example tie_filter_kind : filter_kind = "INSTR".
+Example tie_filter_kind : Extracted.filter_kind = "INSTR".
 Proof. vm_compute; reflexivity. Qed.
-Example tie_ref_prefixes : ref_prefixes = ["heads/"; "tags/"; "remotes/"; "txs/"] /\ pairwise_not_prefix ref_prefixes = true.
+Example tie_ref_prefixes : Extracted.ref_prefixes = ["heads/"; "tags/"; "remotes/"; "txs/"] /\ pairwise_not_prefix Extracted.ref_prefixes = true.
 Proof. split; vm_compute; reflexivity. Qed.
+(* through the model: the filter kind read from the source is the one C15_refines is proved for,
+   and the ref-name prefixes are the model's *)
+Example tie_filter_ok : filter_ok (filter_kind_of_string Extracted.filter_kind) = true.
+Proof. vm_compute; reflexivity. Qed.
+Example tie_model_prefixes : Extracted.ref_prefixes = RefStore.model_ref_prefixes.
+Proof. vm_compute; reflexivity. Qed.
